@@ -29,6 +29,7 @@ import EPV.Gen.EPPistonRun
 import EPV.Lemmas.EPPiston
 import EPV.Lemmas.EPPistonModels
 import EPV.Lemmas.EPPistonExists
+import EPV.Lemmas.Bridge.EPPiston
 import EPV.Tactics
 
 set_option linter.all false
@@ -45,27 +46,17 @@ noncomputable section
 theorem hypo_hugoniot (p : EPPistonHypo.P) (h : EPPistonHypo.outcome p = .ok) (hc : hypoConsistent p)
     (hden : 2 * p.rho0 * p.rho_y - p.rho_y * p.gamma * (p.rho_y - p.rho0) ≠ 0) :
     2 * p.rho0 * p.rho_y * p.e_y = (p.p_y - p.sdev_y) * (p.rho_y - p.rho0) := by
-  obtain ⟨hs, hry, he, hp, hW, hv, hp2, hr2⟩ := hc
-  simp only [epv_tree] at *
-  split_ifs at * <;> first
-    | epv_absurd
-    | (simp only [epv_leaf, Real.rpow_two] at hs he hp
-       exact EPP.hugoniot_energy (Y := p.Y) (Ph := EPP.PH p.rho0 p.c0 p.s0 p.rho_y)
-         (Eh := EPP.EH p.rho0 p.c0 p.s0 p.rho_y) hden (by rw [hs] <;> ring)
-         (by rw [he]; simp only [EPP.PH, EPP.EH] <;> ring) (by rw [hp]; simp only [EPP.PH, EPP.EH] <;> ring))
+  obtain ⟨d, -⟩ := EPP.hypo_doc p h hc
+  exact EPP.hugoniot_energy (Y := p.Y) (Ph := EPP.PH p.rho0 p.c0 p.s0 p.rho_y)
+    (Eh := EPP.EH p.rho0 p.c0 p.s0 p.rho_y) hden d.sdev_eq d.e_y_eq d.p_y_eq
 
 /-- the coded `e_y` is the unique solution of "energy jump + Mie–Grüneisen at ρ_y" -/
 theorem hypo_ey_unique (p : EPPistonHypo.P) (h : EPPistonHypo.outcome p = .ok) (hc : hypoConsistent p)
     (hden : 2 * p.rho0 * p.rho_y - p.rho_y * p.gamma * (p.rho_y - p.rho0) ≠ 0) (e : ℝ) :
     2 * p.rho0 * p.rho_y * e
         = (mieGruneisen p.rho0 p.gamma p.c0 p.s0 p.rho_y e - p.sdev_y) * (p.rho_y - p.rho0) ↔ e = p.e_y := by
-  obtain ⟨hs, hry, he, hp, hW, hv, hp2, hr2⟩ := hc
-  simp only [epv_tree] at *
-  split_ifs at * <;> first
-    | epv_absurd
-    | (simp only [epv_leaf, Real.rpow_two] at hs he
-       rw [EPP.mieGruneisen_eq, EPP.ey_unique (Y := p.Y) e hden (by rw [hs] <;> ring), he]
-       simp only [EPP.PH, EPP.EH] <;> (constructor <;> intro h' <;> rw [h'] <;> ring))
+  obtain ⟨d, -⟩ := EPP.hypo_doc p h hc
+  rw [EPP.mieGruneisen_eq, EPP.ey_unique (Y := p.Y) e hden d.sdev_eq, ← d.e_y_eq]
 
 /-- elastic precursor: mass, momentum (total stress) and energy across the wave of speed `wv_el` -/
 theorem hypo_elastic_jump (p : EPPistonHypo.P) (h : EPPistonHypo.outcome p = .ok) (hc : hypoConsistent p)
@@ -74,24 +65,15 @@ theorem hypo_elastic_jump (p : EPPistonHypo.P) (h : EPPistonHypo.outcome p = .ok
     (hrad : 0 ≤ p.rho_y * (p.sdev_y - p.p_y) / (p.rho0 * (p.rho0 - p.rho_y))) :
     RankineHugoniotEP ⟨p.rho0, 0, 0, 0⟩ ⟨p.rho_y, p.vel_y, p.p_y, p.e_y⟩ 0 p.sdev_y p.wv_el := by
   have hE := hypo_hugoniot p h hc hden
-  obtain ⟨hs, hry, he, hp, hW, hv, hp2, hr2⟩ := hc
-  simp only [epv_tree] at *
-  split_ifs at * <;> first
-    | epv_absurd
-    | (simp only [epv_cond, not_le, not_lt] at *
-       simp only [epv_leaf] at hW hv
-       exact EPP.elastic_jump (by linarith) hρy hne hrad hW hv hE)
+  obtain ⟨d, -⟩ := EPP.hypo_doc p h hc
+  exact EPP.elastic_jump d.rho0_pos.ne' hρy hne hrad d.wv_el_eq (d.vel_y_eq hρy) hE
 
 /-- plastic wave: mass, momentum (total stress) and energy across the wave of speed `wv_pl` -/
 theorem hypo_plastic_jump (p : EPPistonHypo.P) (h : EPPistonHypo.outcome p = .ok) (hc : hypoConsistent p)
     (hρy : p.rho_y ≠ 0) (h1 : p.wv_pl - p.up ≠ 0) (h2 : p.wv_pl - p.vel_y ≠ 0) :
     RankineHugoniotEP ⟨p.rho_y, p.vel_y, p.p_y, p.e_y⟩ ⟨p.rho2, p.up, p.p2, EPPistonHypo.e2 p⟩ p.sdev_y p.sdev_y p.wv_pl := by
-  obtain ⟨hs, hry, he, hp, hW, hv, hp2, hr2⟩ := hc
-  simp only [epv_tree] at *
-  split_ifs at * <;> first
-    | epv_absurd
-    | (simp only [epv_leaf] at hp2 hr2 ⊢
-       exact EPP.plastic_jump hρy h1 h2 (by rw [hp2] <;> ring) hr2 (by ring))
+  obtain ⟨d, -⟩ := EPP.hypo_doc p h hc
+  exact EPP.plastic_jump hρy h1 h2 d.p2_eq d.rho2_eq d.e2_eq
 
 /-! ### model = 'hyperIfin' -/
 
@@ -99,27 +81,17 @@ theorem hypo_plastic_jump (p : EPPistonHypo.P) (h : EPPistonHypo.outcome p = .ok
 theorem ifin_hugoniot (p : EPPistonIfin.P) (h : EPPistonIfin.outcome p = .ok) (hc : ifinConsistent p)
     (hden : 2 * p.rho0 * p.rho_y - p.rho_y * p.gamma * (p.rho_y - p.rho0) ≠ 0) :
     2 * p.rho0 * p.rho_y * p.e_y = (p.p_y - p.sdev_y) * (p.rho_y - p.rho0) := by
-  obtain ⟨hs, hry, he, hp, hW, hv, hp2, hr2⟩ := hc
-  simp only [epv_tree] at *
-  split_ifs at * <;> first
-    | epv_absurd
-    | (simp only [epv_leaf, Real.rpow_two] at hs he hp
-       exact EPP.hugoniot_energy (Y := p.Y) (Ph := EPP.PH p.rho0 p.c0 p.s0 p.rho_y)
-         (Eh := EPP.EH p.rho0 p.c0 p.s0 p.rho_y) hden (by rw [hs] <;> ring)
-         (by rw [he]; simp only [EPP.PH, EPP.EH] <;> ring) (by rw [hp]; simp only [EPP.PH, EPP.EH] <;> ring))
+  obtain ⟨d, -⟩ := EPP.ifin_doc p h hc
+  exact EPP.hugoniot_energy (Y := p.Y) (Ph := EPP.PH p.rho0 p.c0 p.s0 p.rho_y)
+    (Eh := EPP.EH p.rho0 p.c0 p.s0 p.rho_y) hden d.sdev_eq d.e_y_eq d.p_y_eq
 
 /-- the coded `e_y` is the unique solution of "energy jump + Mie–Grüneisen at ρ_y" -/
 theorem ifin_ey_unique (p : EPPistonIfin.P) (h : EPPistonIfin.outcome p = .ok) (hc : ifinConsistent p)
     (hden : 2 * p.rho0 * p.rho_y - p.rho_y * p.gamma * (p.rho_y - p.rho0) ≠ 0) (e : ℝ) :
     2 * p.rho0 * p.rho_y * e
         = (mieGruneisen p.rho0 p.gamma p.c0 p.s0 p.rho_y e - p.sdev_y) * (p.rho_y - p.rho0) ↔ e = p.e_y := by
-  obtain ⟨hs, hry, he, hp, hW, hv, hp2, hr2⟩ := hc
-  simp only [epv_tree] at *
-  split_ifs at * <;> first
-    | epv_absurd
-    | (simp only [epv_leaf, Real.rpow_two] at hs he
-       rw [EPP.mieGruneisen_eq, EPP.ey_unique (Y := p.Y) e hden (by rw [hs] <;> ring), he]
-       simp only [EPP.PH, EPP.EH] <;> (constructor <;> intro h' <;> rw [h'] <;> ring))
+  obtain ⟨d, -⟩ := EPP.ifin_doc p h hc
+  rw [EPP.mieGruneisen_eq, EPP.ey_unique (Y := p.Y) e hden d.sdev_eq, ← d.e_y_eq]
 
 /-- elastic precursor: mass, momentum (total stress) and energy across the wave of speed `wv_el` -/
 theorem ifin_elastic_jump (p : EPPistonIfin.P) (h : EPPistonIfin.outcome p = .ok) (hc : ifinConsistent p)
@@ -128,24 +100,15 @@ theorem ifin_elastic_jump (p : EPPistonIfin.P) (h : EPPistonIfin.outcome p = .ok
     (hrad : 0 ≤ p.rho_y * (p.sdev_y - p.p_y) / (p.rho0 * (p.rho0 - p.rho_y))) :
     RankineHugoniotEP ⟨p.rho0, 0, 0, 0⟩ ⟨p.rho_y, p.vel_y, p.p_y, p.e_y⟩ 0 p.sdev_y p.wv_el := by
   have hE := ifin_hugoniot p h hc hden
-  obtain ⟨hs, hry, he, hp, hW, hv, hp2, hr2⟩ := hc
-  simp only [epv_tree] at *
-  split_ifs at * <;> first
-    | epv_absurd
-    | (simp only [epv_cond, not_le, not_lt] at *
-       simp only [epv_leaf] at hW hv
-       exact EPP.elastic_jump (by linarith) hρy hne hrad hW hv hE)
+  obtain ⟨d, -⟩ := EPP.ifin_doc p h hc
+  exact EPP.elastic_jump d.rho0_pos.ne' hρy hne hrad d.wv_el_eq (d.vel_y_eq hρy) hE
 
 /-- plastic wave: mass, momentum (total stress) and energy across the wave of speed `wv_pl` -/
 theorem ifin_plastic_jump (p : EPPistonIfin.P) (h : EPPistonIfin.outcome p = .ok) (hc : ifinConsistent p)
     (hρy : p.rho_y ≠ 0) (h1 : p.wv_pl - p.up ≠ 0) (h2 : p.wv_pl - p.vel_y ≠ 0) :
     RankineHugoniotEP ⟨p.rho_y, p.vel_y, p.p_y, p.e_y⟩ ⟨p.rho2, p.up, p.p2, EPPistonIfin.e2 p⟩ p.sdev_y p.sdev_y p.wv_pl := by
-  obtain ⟨hs, hry, he, hp, hW, hv, hp2, hr2⟩ := hc
-  simp only [epv_tree] at *
-  split_ifs at * <;> first
-    | epv_absurd
-    | (simp only [epv_leaf] at hp2 hr2 ⊢
-       exact EPP.plastic_jump hρy h1 h2 (by rw [hp2] <;> ring) hr2 (by ring))
+  obtain ⟨d, -⟩ := EPP.ifin_doc p h hc
+  exact EPP.plastic_jump hρy h1 h2 d.p2_eq d.rho2_eq d.e2_eq
 
 /-! ### model = 'hyperFin' -/
 
@@ -153,27 +116,17 @@ theorem ifin_plastic_jump (p : EPPistonIfin.P) (h : EPPistonIfin.outcome p = .ok
 theorem fin_hugoniot (p : EPPistonFin.P) (h : EPPistonFin.outcome p = .ok) (hc : finConsistent p)
     (hden : 2 * p.rho0 * p.rho_y - p.rho_y * p.gamma * (p.rho_y - p.rho0) ≠ 0) :
     2 * p.rho0 * p.rho_y * p.e_y = (p.p_y - p.sdev_y) * (p.rho_y - p.rho0) := by
-  obtain ⟨hs, hry, he, hp, hW, hv, hp2, hr2⟩ := hc
-  simp only [epv_tree] at *
-  split_ifs at * <;> first
-    | epv_absurd
-    | (simp only [epv_leaf, Real.rpow_two] at hs he hp
-       exact EPP.hugoniot_energy (Y := p.Y) (Ph := EPP.PH p.rho0 p.c0 p.s0 p.rho_y)
-         (Eh := EPP.EH p.rho0 p.c0 p.s0 p.rho_y) hden (by rw [hs] <;> ring)
-         (by rw [he]; simp only [EPP.PH, EPP.EH] <;> ring) (by rw [hp]; simp only [EPP.PH, EPP.EH] <;> ring))
+  obtain ⟨d, -⟩ := EPP.fin_doc p h hc
+  exact EPP.hugoniot_energy (Y := p.Y) (Ph := EPP.PH p.rho0 p.c0 p.s0 p.rho_y)
+    (Eh := EPP.EH p.rho0 p.c0 p.s0 p.rho_y) hden d.sdev_eq d.e_y_eq d.p_y_eq
 
 /-- the coded `e_y` is the unique solution of "energy jump + Mie–Grüneisen at ρ_y" -/
 theorem fin_ey_unique (p : EPPistonFin.P) (h : EPPistonFin.outcome p = .ok) (hc : finConsistent p)
     (hden : 2 * p.rho0 * p.rho_y - p.rho_y * p.gamma * (p.rho_y - p.rho0) ≠ 0) (e : ℝ) :
     2 * p.rho0 * p.rho_y * e
         = (mieGruneisen p.rho0 p.gamma p.c0 p.s0 p.rho_y e - p.sdev_y) * (p.rho_y - p.rho0) ↔ e = p.e_y := by
-  obtain ⟨hs, hry, he, hp, hW, hv, hp2, hr2⟩ := hc
-  simp only [epv_tree] at *
-  split_ifs at * <;> first
-    | epv_absurd
-    | (simp only [epv_leaf, Real.rpow_two] at hs he
-       rw [EPP.mieGruneisen_eq, EPP.ey_unique (Y := p.Y) e hden (by rw [hs] <;> ring), he]
-       simp only [EPP.PH, EPP.EH] <;> (constructor <;> intro h' <;> rw [h'] <;> ring))
+  obtain ⟨d, -⟩ := EPP.fin_doc p h hc
+  rw [EPP.mieGruneisen_eq, EPP.ey_unique (Y := p.Y) e hden d.sdev_eq, ← d.e_y_eq]
 
 /-- elastic precursor: mass, momentum (total stress) and energy across the wave of speed `wv_el` -/
 theorem fin_elastic_jump (p : EPPistonFin.P) (h : EPPistonFin.outcome p = .ok) (hc : finConsistent p)
@@ -182,24 +135,15 @@ theorem fin_elastic_jump (p : EPPistonFin.P) (h : EPPistonFin.outcome p = .ok) (
     (hrad : 0 ≤ p.rho_y * (p.sdev_y - p.p_y) / (p.rho0 * (p.rho0 - p.rho_y))) :
     RankineHugoniotEP ⟨p.rho0, 0, 0, 0⟩ ⟨p.rho_y, p.vel_y, p.p_y, p.e_y⟩ 0 p.sdev_y p.wv_el := by
   have hE := fin_hugoniot p h hc hden
-  obtain ⟨hs, hry, he, hp, hW, hv, hp2, hr2⟩ := hc
-  simp only [epv_tree] at *
-  split_ifs at * <;> first
-    | epv_absurd
-    | (simp only [epv_cond, not_le, not_lt] at *
-       simp only [epv_leaf] at hW hv
-       exact EPP.elastic_jump (by linarith) hρy hne hrad hW hv hE)
+  obtain ⟨d, -⟩ := EPP.fin_doc p h hc
+  exact EPP.elastic_jump d.rho0_pos.ne' hρy hne hrad d.wv_el_eq (d.vel_y_eq hρy) hE
 
 /-- plastic wave: mass, momentum (total stress) and energy across the wave of speed `wv_pl` -/
 theorem fin_plastic_jump (p : EPPistonFin.P) (h : EPPistonFin.outcome p = .ok) (hc : finConsistent p)
     (hρy : p.rho_y ≠ 0) (h1 : p.wv_pl - p.up ≠ 0) (h2 : p.wv_pl - p.vel_y ≠ 0) :
     RankineHugoniotEP ⟨p.rho_y, p.vel_y, p.p_y, p.e_y⟩ ⟨p.rho2, p.up, p.p2, EPPistonFin.e2 p⟩ p.sdev_y p.sdev_y p.wv_pl := by
-  obtain ⟨hs, hry, he, hp, hW, hv, hp2, hr2⟩ := hc
-  simp only [epv_tree] at *
-  split_ifs at * <;> first
-    | epv_absurd
-    | (simp only [epv_leaf] at hp2 hr2 ⊢
-       exact EPP.plastic_jump hρy h1 h2 (by rw [hp2] <;> ring) hr2 (by ring))
+  obtain ⟨d, -⟩ := EPP.fin_doc p h hc
+  exact EPP.plastic_jump hρy h1 h2 d.p2_eq d.rho2_eq d.e2_eq
 
 /-- non-vacuity: the hypotheses of the elastic and plastic jump theorems hold for the default problem
 (model = 'hyperIfin'; the theorems for the other two models have literally the same hypotheses) -/
